@@ -46,6 +46,7 @@ def dispatch (op : String) (j : Json) : R Json :=
   | "docDecode" => opDocDecode j
   | "textWrite" => opTextWrite j
   | "textRead" => opTextRead j
+  | "unmarshalText" => opUnmarshalText j
   | _ => .error s!"unknown op {op}"
 
 partial def loop (h : IO.FS.Stream) (out : IO.FS.Stream) : IO Unit := do
